@@ -5,6 +5,7 @@ import (
 	"encoding/hex"
 	"fmt"
 	"io"
+	"math/rand"
 	"sort"
 	"strconv"
 	"strings"
@@ -24,6 +25,7 @@ type World struct {
 	rc      *refCounter
 	churn   []*gkvlite.Store
 	dropped int
+	lastFired bool
 	dead    bool // a hang happened: the process state is no longer trustworthy
 	opTimeo time.Duration
 }
@@ -254,10 +256,8 @@ func (w *World) exec(t []string) string {
 	w.setTag(t[0])
 	switch t[0] {
 	case "reset":
-		for _, s := range w.stores {
-			_ = s
-		}
 		*w = *newWorld()
+		rand.Seed(20260923) // EvictSomeItems / RandBm draw from the global source: keep runs repeatable
 		return "ok"
 	case "cfg":
 		w.cfg = atoi(t[1])
@@ -601,7 +601,10 @@ func (w *World) exec(t []string) string {
 		if st == nil {
 			return "nostore"
 		}
-		mf := memfile.New()
+		mf := w.files[atoi(t[3])]
+		if mf == nil || len(mf.Data) > 0 {
+			mf = memfile.New()
+		}
 		mf.Tag = "copydst"
 		fe := atoi(t[4])
 		dst, err := st.CopyTo(mf, fe)
@@ -692,15 +695,17 @@ func (w *World) exec(t []string) string {
 	case "fault":
 		mf := w.files[atoi(t[1])]
 		if mf == nil {
-			return "nofile"
+			mf = memfile.New()
+			w.files[atoi(t[1])] = mf
 		}
 		mf.Arm(atoi(t[2]), atoi(t[3]))
 		return "ok"
 	case "unfault":
 		mf := w.files[atoi(t[1])]
 		if mf == nil {
-			return "nofile"
+			return "ok"
 		}
+		w.lastFired = mf.Fired
 		mf.Disarm()
 		return "ok"
 	}
